@@ -1,5 +1,5 @@
 use crate::matcher::{Matcher, NodeMatch};
-use crate::meta_var::{is_valid_meta_var_char, MetaVariableID};
+use crate::meta_var::{is_valid_first_char, is_valid_meta_var_char, MetaVariableID};
 use crate::source::Edit as E;
 use crate::{Doc, Node, Root};
 use std::ops::Range;
@@ -102,8 +102,8 @@ fn split_first_meta_var(
   let i = src[skipped..]
     .find(|c: char| !is_valid_meta_var_char(c))
     .unwrap_or(src.len() - skipped);
-  // no name found
-  if i == 0 {
+  // no name found, or a name a meta variable cannot have, e.g. `$1`
+  if i == 0 || !src[skipped..].starts_with(is_valid_first_char) {
     return None;
   }
   let name = src[skipped..skipped + i].to_string();
